@@ -76,7 +76,11 @@ namespace occa {
 
       std::string openclParser::launchBoundsAttribute(const int innerDims[3]) {
         std::stringstream ss; 
-        ss << "__attribute__((reqd_work_group_size("
+        // reqd_work_group_size makes every launch with another work-group size fail:
+        // @max_inner_dims is only an upper bound, so it can merely be a hint
+        ss << (launchBoundsAreExact
+               ? "__attribute__((reqd_work_group_size("
+               : "__attribute__((work_group_size_hint(")
            << innerDims[0]
            << ","
            << innerDims[1]
